@@ -31,6 +31,9 @@ fn core() -> &'static Vec<Prog> {
                     // and later yields happen while no other thread can run
                     v.push(Prog { nlocs: 2, pre: vec![], threads: vec![vec![st(0, 1, so), st(1, 1, so)], vec![aw(0, lo), aw(1, lo)]] });
                     v.push(Prog { nlocs: 2, pre: vec![], threads: vec![vec![], vec![aw(0, lo), aw(1, lo), ld(0, Rlx)], vec![st(1, 1, so), st(0, 1, so)]] });
+                    // the waiter is a child that reads another location after the loop; main is the only other thread
+                    v.push(Prog { nlocs: 2, pre: vec![], threads: vec![vec![st(1, 5, Rlx), st(0, 1, so)], vec![aw(0, lo), ld(1, Rlx)]] });
+                    v.push(Prog { nlocs: 2, pre: vec![], threads: vec![vec![st(1, 5, Rlx), st(0, 1, so), st(0, 2, so)], vec![aw(0, lo), ld(1, Rlx), ld(0, Rlx)]] });
                     // the waiter is a child, main writes after another access
                     v.push(Prog { nlocs: 2, pre: vec![], threads: vec![vec![ld(1, Rlx), st(0, 1, so)], vec![aw(0, lo), st(1, 7, Rlx)]] });
                 }
@@ -226,7 +229,7 @@ fn note(op: &Op, rv: Option<u64>, seen: &mut [BTreeSet<u64>]) {
     }
 }
 
-pub const KNOWN_SPUN_SIG: &str = "other_thread_reads_what_the_waiter_wrote_after_it_spun";
+pub const KNOWN_SPUN_SIG: &str = "spun_combination_that_needs_another_thread_after_the_yield";
 
 fn spun_check(p: &Prog, with_bits: &BTreeSet<Vec<u64>>, rec: &mut Rec, include_empty: bool) {
     let n_aw = p.threads.iter().flatten().filter(|o| matches!(o, Op::Await { .. })).count();
@@ -389,6 +392,9 @@ fn spun_check(p: &Prog, with_bits: &BTreeSet<Vec<u64>>, rec: &mut Rec, include_e
             }
             false
         };
+        // ... or, more generally, a third thread would have to run at the decision at which the waiter yielded (with two
+        // other threads there is a choice there, and loom explores the default one only)
+        let third_thread = (0..q.threads.len()).filter(|t| !spun_threads.contains(t) && !q.threads[*t].is_empty()).count() >= 2;
         let mut st = Stats { budget: 400_000, ..Default::default() };
         let strong_q: BTreeSet<Vec<u64>> = match allowed(&q, Variant::Strong, &mut st) {
             Ok(s) => s.into_iter().filter(|o| !exempt(o)).collect(),
@@ -399,7 +405,7 @@ fn spun_check(p: &Prog, with_bits: &BTreeSet<Vec<u64>>, rec: &mut Rec, include_e
             let one: BTreeSet<Vec<u64>> = std::iter::once(o.clone()).collect();
             for m in map(&one) {
                 if !same_bits.contains(&m) {
-                    if mask != 0 && reads_waiters_later_write(o) {
+                    if mask != 0 && (reads_waiters_later_write(o) || third_thread) {
                         known.insert(m);
                     } else {
                         other.insert(m);
